@@ -118,7 +118,7 @@ class TableLineageAnalyzer:
             from_table_lineage = table_lineage_storage.get_table_lineage(from_standard_table)
             if not from_table_lineage.has_column(quote_column.column_name):
                 continue
-            if already_match is True:
+            if already_match is True and quote_column.column_name != "*":
                 raise AnalyzerError("同一个字段可以匹配到多个上游表")
             already_match = True
             source_column_list.extend(
